@@ -97,7 +97,7 @@ Proof. exact Proofs.captured_only_if_nested_use. Qed.
 
 Example C01_runs_nonvacuous :
   run_program 50 [SAssign 1 (TVar "x") (EList [EInt 1; EInt 2]);
-                  SExpr 2 (EMeth (EVar "x") "append" [EInt 3]);
+                  SExpr 2 (EMeth (EVar "x") "append" [EInt 3] []);
                   SExpr 3 (ECall (EVar "emit") [EVar "x"] [] None None);
                   SExpr 4 (EIndex (EVar "x") (EInt 7))]
   = ([OList [OInt 1; OInt 2; OInt 3]], Failed IndexErr (Some 4)).
